@@ -273,7 +273,7 @@ def run_xarray(s):
         for target_kind in ("array", "dataarray", "nd-dataarray"):
             for named in (True, False):
                 for suffix in (None, "_on_rho"):
-                    for flags in ((True, False), (False, True)):
+                    for flags in ((True, False), (False, True), (True, True), (False, False)):
                         if not named and target_kind != "array":
                             continue
                         cases.append((method, target_kind, named, suffix, flags))
@@ -464,8 +464,10 @@ def replay(ob):
         rng = np.random.default_rng(0)
         da = xr.DataArray(rng.random((2, nz, nx)), dims=("t", "z_c", "x_c"), name="PHI")
         td = xr.DataArray(np.sort(rng.random((2, nz, nx)) + 0.1, axis=1), dims=("t", "z_c", "x_c"), name="TDATA" if opts["named"] == "True" else None)
-        lev = np.array([0.3, 0.6, 0.2])
+        lev = np.array([0.3, 0.6, 0.2, -1.0, 5.0])
         kw = {} if opts["suffix"] == "None" else {"suffix": opts["suffix"]}
+        if "bypass_checks" in opts:
+            kw["bypass_checks"] = opts["bypass_checks"] == "True"
         if opts["target"] == "dataarray":
             tgt = xr.DataArray(lev, dims=["sigma"], coords={"sigma": lev}, name="sigma")
         elif opts["target"] == "nd-dataarray":
